@@ -1401,7 +1401,7 @@ class DMLQuery(object):
                 if uc.get_context_size() > 0:
                     ds.add_field(uc)
                     deleted_fields = True
-                    static_only |= col.static
+                    static_only &= col.static
 
         if deleted_fields:
             keys = self.model._partition_keys if static_only else self.model._primary_keys
